@@ -87,6 +87,13 @@ def instances(tier, seed):
     for s_ in range(1000*seed, 1000*seed+(60 if tier == "quick" else 600)):
         out.append(dict(label=f'classify_rnd rnd{s_}', kind='classify_rnd', template=f'rnd{s_}'))
         out.append(dict(label=f'evaluate_rnd rnd{s_}', kind='evaluate_rnd', template=f'rnd{s_}'))
+    # metric nodes of different elements that carry the same name (and index)
+    cA = dict(perm='A', has_dir=True, has_ref=True, type=None)
+    for other in (dict(perm=False, has_dir=True, has_ref=True, type=None), dict(perm=False, has_dir=True, has_ref=False, type=None),
+                  dict(perm=True, has_dir=True, has_ref=False, type=None), dict(perm=True, has_dir=True, has_ref=True, type='CONSTRAINT')):
+        out.append(dict(label=f'classify_same_name A/{lab(other)}', kind='classify_multi', nodes=[cA, other], graph=['P', 'P']))
+    out.append(dict(label='classify_same_name three', kind='classify_multi', nodes=[cA, dict(perm=False, has_dir=True, has_ref=True, type=None), reps[3]],
+                    graph=['P', 'P', 'P']))
     trip = [reps[1], reps[0], reps[4]], [reps[5], reps[3], reps[0]], [reps[2], reps[4], reps[3]], [reps[3], reps[2], reps[1]]
     for t in trip:
         out.append(dict(label='classify_triple '+' '.join(lab(c) for c in t), kind='classify_multi', nodes=list(t)))
@@ -141,7 +148,7 @@ def _expected(perm, has_dir, has_ref, ty):
     """documented contract -> 'obj' | 'con' | 'none' | 'error'"""
     if ty == 'NONE':
         return 'none'
-    can_obj = has_dir and perm in (True, 'shared')
+    can_obj = has_dir and perm in (True, 'shared')  # (perm == 'A': under option A, conditional)
     can_con = has_dir and has_ref
     if can_obj and can_con:
         if ty == 'OBJECTIVE':
@@ -233,8 +240,8 @@ def _run_classify(inst, res):
     res['sample'] = dict(harness=inst['label'], expected_role=want, paths=[dict(pc=str(p.pc), outcome=str(p.value)[:200]) for p in ex.paths])
 
 
-def _mk_multi_graph(nodes, ds, rs):
-    """R -c-> [A, B]; metric i ('M1', 'M2', ...) under R (perm) or under option B"""
+def _mk_multi_graph(nodes, ds, rs, names=None):
+    """R -c-> [A, B]; metric i ('M1', 'M2', ... or the given names) under R (perm) or under option B (or A: perm == 'A')"""
     from adsg_core import BasicDSG, NamedNode, MetricNode
     g = BasicDSG()
     root, a, b = NamedNode('R'), NamedNode('A'), NamedNode('B')
@@ -242,8 +249,8 @@ def _mk_multi_graph(nodes, ds, rs):
     ms = []
     # inserted in reverse order: the listing order must not depend on it
     for i in reversed(range(len(nodes))):
-        m = MetricNode(f'M{i+1}', direction=ds[i], ref=rs[i], type_=_mtype(nodes[i]['type']))
-        g.add_edges([(root if nodes[i]['perm'] else b, m)])
+        m = MetricNode(names[i] if names else f'M{i+1}', direction=ds[i], ref=rs[i], type_=_mtype(nodes[i]['type']))
+        g.add_edges([(a if nodes[i]['perm'] == 'A' else (root if nodes[i]['perm'] else b), m)])
         ms.insert(0, m)
     g = g.set_start_nodes({root})
     return g, ms
@@ -296,7 +303,10 @@ def _rnd_nodes(name):
 
 def _multi_outcome(nodes, ds, rs, graph=None):
     from adsg_core import DSGEvaluator
-    g, ms = _mk_multi_graph(nodes, ds, rs) if graph is None else _mk_rnd_graph(graph, ds, rs)
+    if isinstance(graph, list):   # explicit names (several metric nodes may share a name)
+        g, ms = _mk_multi_graph(nodes, ds, rs, names=graph)
+    else:
+        g, ms = _mk_multi_graph(nodes, ds, rs) if graph is None else _mk_rnd_graph(graph, ds, rs)
     ev = DSGEvaluator(g)
     try:
         objs, cons = ev.objectives, ev.constraints
@@ -365,7 +375,9 @@ def _run_classify_multi(inst, res):
             if status == 'ok':
                 want_o = [i for i, r in enumerate(roles_) if r == 'obj']
                 want_c = [i for i, r in enumerate(roles_) if r == 'con']
-                if [o[0] for o in objs] != want_o or [c[0] for c in cons] != want_c:
+                same_names = isinstance(graph, list) and len(set(graph)) < len(graph)
+                srt = sorted if same_names else list  # nodes with equal names have no prescribed mutual order
+                if srt(o[0] for o in objs) != want_o or srt(c[0] for c in cons) != want_c:
                     return f'objectives {[o[0] for o in objs]} constraints {[c[0] for c in cons]}, contract: {want_o} / {want_c} (by name)'
                 claims = []
                 for i, sign in objs:
@@ -391,7 +403,7 @@ def _run_classify_multi(inst, res):
             _viol(res, 'classify_multi', dict(kind='contract', **cfg), cfg, inputs, dict(symbolic=bad, native=repr(nat)), [want_status, roles])
         else:
             res['discharged'] += 1
-        if nat[0] != status or (status == 'ok' and ([o[0] for o in nat[1]] != [o[0] for o in objs] or [c[0] for c in nat[2]] != [c[0] for c in cons])):
+        if nat[0] != status or (status == 'ok' and (sorted(o[0] for o in nat[1]) != sorted(o[0] for o in objs) or sorted(c[0] for c in nat[2]) != sorted(c[0] for c in cons))):
             res['status'] = HARNESS_ERROR
             res['notes'].append(f'concolic mismatch: {inputs}: path {p.value}, native {nat}')
         res['validated'] += 1
@@ -532,12 +544,9 @@ def _run_evaluate(inst, res):
                 [co.node for co in ev.constraints], metrics
         ex = explore(run)
         absorb(res, ex)
-        if not ex.complete or len(ex.paths) != 1 or ex.paths[0].kind == 'exc':
-            res['status'] = HARNESS_ERROR
-            res['notes'].append(f'{behaviour}: {ex.status} {[p.exc for p in ex.paths]}')
+        paths = _paths_or_error(ex, res, str(behaviour))
+        if paths is None:
             continue
-        o, c, stored, onodes, cnodes, metrics = ex.paths[0].value
-        mo, mc, mk = metrics
         present = [True, True, arch == 1]
 
         def want(i):
@@ -545,28 +554,27 @@ def _run_evaluate(inst, res):
                 return vals[i]
             return math.nan
         problems = []
-        if len(o) != len(onodes) or len(c) != len(cnodes) or onodes != [mo] or cnodes != [mc, mk]:
-            problems.append(f'objectives/constraints: {onodes} {cnodes}, values {o} {c}')
-        else:
+        for p_ in paths:
+            if p_.kind == 'exc':
+                problems.append(f'raises {p_.exc!r} when {p_.pc}')
+                continue
+            cond = p_.cond()
+            o, c, stored, onodes, cnodes, metrics = p_.value
+            mo, mc, mk = metrics
+            if len(o) != len(onodes) or len(c) != len(cnodes) or onodes != [mo] or cnodes != [mc, mk]:
+                problems.append(f'objectives/constraints: {onodes} {cnodes}, values {o} {c}')
+                continue
             exp = [want(0)], [want(1), want(2) if present[2] else refs[1]]
             for got, w in zip(list(o)+list(c), exp[0]+exp[1]):
                 res['obligations'] += 1
                 n_obl += 1
-                if isinstance(w, float):
-                    ok = isinstance(got, float) and math.isnan(got)
-                else:
-                    ok = is_sym(got) and z3.is_true(z3.simplify(got.e == w.e))
-                if ok:
+                if _val_ok(got, w, cond):
                     res['discharged'] += 1
                 else:
-                    problems.append(f'value {got} where {w} expected')
+                    problems.append(f'value {got} where {w} expected (when {p_.pc})')
             for i, m in enumerate(metrics):
-                if present[i]:
-                    w = want(i)
-                    got = stored[i]
-                    ok = (isinstance(got, float) and math.isnan(got)) if isinstance(w, float) else (is_sym(got) and z3.is_true(z3.simplify(got.e == w.e)))
-                    if not ok:
-                        problems.append(f'metric_values[{m}] = {got}, expected {w}')
+                if present[i] and not _val_ok(stored[i], want(i), cond):
+                    problems.append(f'metric_values[{m}] = {stored[i]}, expected {want(i)} (when {p_.pc})')
         if problems:
             _viol(res, 'evaluate', dict(kind='evaluate', arch=arch, behaviour=list(behaviour), prestore=prestore),
                   dict(arch=arch, prestore=prestore), dict(behaviour=list(behaviour)), problems, 'documented evaluate contract')
@@ -580,10 +588,34 @@ def _run_evaluate(inst, res):
     res['sample'] = dict(harness=inst['label'], behaviours=64, value_obligations=n_obl)
 
 
-def _val_ok(got, w):
-    if isinstance(w, float):
+def _val_ok(got, w, cond=None):
+    """the returned value is the expected one for every input on the path (cond = its path condition)"""
+    if isinstance(w, float) and math.isnan(w):
         return isinstance(got, float) and math.isnan(got)
-    return is_sym(got) and z3.is_true(z3.simplify(got.e == w.e))
+    if isinstance(got, float) and math.isnan(got):
+        return False
+    if not is_sym(w):
+        return (not is_sym(got)) and got == w
+    g_ = got.e if is_sym(got) else z3val(got)
+    if z3.is_true(z3.simplify(g_ == w.e)):
+        return True
+    if cond is None:
+        return False
+    s_ = z3.Solver()
+    s_.add(cond, g_ != w.e)
+    return str(s_.check()) == 'unsat'
+
+
+def _paths_or_error(ex, res, what):
+    """paths of an exploration whose code may branch on the symbolic values (e.g. a truthiness test): every path is
+    checked under its own path condition; an exception on a path is reported by the caller"""
+    if not ex.complete:
+        res['status'] = HARNESS_ERROR
+        res['notes'].append(f'{what}: {ex.status}')
+        return None
+    if not require_exhaustive(res, ex):
+        return None
+    return ex.paths
 
 
 def _seq_run(archs, behaviours, refs, vals):
@@ -630,16 +662,20 @@ def _run_evaluate_seq(inst, res):
         for b2 in itertools.product(('given', 'missing', 'nan'), repeat=3):
             ex = explore(lambda: _seq_run(archs, (b1, b2), refs, vals))
             absorb(res, ex)
-            if not ex.complete or len(ex.paths) != 1 or ex.paths[0].kind == 'exc':
-                res['status'] = HARNESS_ERROR
-                res['notes'].append(f'{b1} {b2}: {ex.status} {[p.exc for p in ex.paths]}')
+            paths = _paths_or_error(ex, res, f'{b1} {b2}')
+            if paths is None:
                 continue
-            v = ex.paths[0].value
-            mo, mc, mk = v['metrics']
             problems = []
-            if v['onodes'] != [mo] or v['cnodes'] != [mc, mk]:
-                problems.append(f"objectives/constraints: {v['onodes']} {v['cnodes']}")
-            else:
+            for p_ in paths:
+                if p_.kind == 'exc':
+                    problems.append(f'raises {p_.exc!r} when {p_.pc}')
+                    continue
+                cond = p_.cond()
+                v = p_.value
+                mo, mc, mk = v['metrics']
+                if v['onodes'] != [mo] or v['cnodes'] != [mc, mk]:
+                    problems.append(f"objectives/constraints: {v['onodes']} {v['cnodes']}")
+                    continue
                 for k, (arch, beh, key) in enumerate(((archs[0], b1, 'first'), (archs[1], b2, 'second'))):
                     wo, wc, ws = _seq_want(arch, beh, refs, vals[k])
                     o, c = v[key]
@@ -649,13 +685,13 @@ def _run_evaluate_seq(inst, res):
                     for got, w in zip(list(o)+list(c), wo+wc):
                         res['obligations'] += 1
                         n += 1
-                        if _val_ok(got, w):
+                        if _val_ok(got, w, cond):
                             res['discharged'] += 1
                         else:
                             problems.append(f'{key} evaluation (arch {arch}, evaluator {beh}): value {got} where {w} expected'
-                                            + (' [after the second evaluation]' if key == 'first' else ''))
+                                            + (' [after the second evaluation]' if key == 'first' else '') + f' (when {p_.pc})')
                     for i, (got, w) in enumerate(zip(v['stored1' if key == 'first' else 'stored2'], ws)):
-                        if w is not None and not _val_ok(got, w):
+                        if w is not None and not _val_ok(got, w, cond):
                             problems.append(f'{key} instance metric_value[{i}] = {got}, expected {w}')
                 # the lists returned by the first call are not touched by the second
                 o1, c1 = v['first']
@@ -714,7 +750,9 @@ def _run_evaluate_rnd(inst, res):
     xs, presence = xs[:12], presence[:12]
     ds = [(-1 if k % 2 else 1) if c['has_dir'] else None for k, c in enumerate(nodes)]
     rs = [sym_real(f'ref{k+1}') if c['has_ref'] else None for k, c in enumerate(nodes)]
-    vals = [[sym_real(f'v{a}_{k+1}') for k in range(len(nodes))] for a in range(len(xs))]
+    # symbolic evaluator values for the first two designs, distinct plain numbers for the others (a value test in the
+    # evaluated code forks per symbolic value)
+    vals = [[sym_real(f'v{a}_{k+1}') if a < 2 else float(100+10*a+k) for k in range(len(nodes))] for a in range(len(xs))]
     beh = lambda a, k: ('given', 'given', 'missing', 'nan')[(a+2*k) % 4]  # noqa
 
     def run():
@@ -743,15 +781,19 @@ def _run_evaluate_rnd(inst, res):
         return results, [idx[id(o.node)] for o in ev.objectives], [idx[id(c.node)] for c in ev.constraints]
     ex = explore(run)
     absorb(res, ex)
-    if not ex.complete or len(ex.paths) != 1 or ex.paths[0].kind == 'exc':
-        res['status'] = HARNESS_ERROR
-        res['notes'].append(f'{ex.status} {[p.exc for p in ex.paths]}')
+    paths = _paths_or_error(ex, res, name)
+    if paths is None:
         return
-    results, oidx, cidx = ex.paths[0].value
     problems = []
-    if oidx != [k for k, r in enumerate(roles) if r == 'obj'] or cidx != [k for k, r in enumerate(roles) if r == 'con']:
-        problems.append(f'objectives {oidx} constraints {cidx}; contract {roles}')
-    else:
+    for p_ in paths:
+        if p_.kind == 'exc':
+            problems.append(f'raises {p_.exc!r} when {p_.pc}')
+            continue
+        cond = p_.cond()
+        results, oidx, cidx = p_.value
+        if oidx != [k for k, r in enumerate(roles) if r == 'obj'] or cidx != [k for k, r in enumerate(roles) if r == 'con']:
+            problems.append(f'objectives {oidx} constraints {cidx}; contract {roles}')
+            continue
         for a, (o, c, present) in enumerate(results):
             if present != presence[a]:
                 res['status'] = HARNESS_ERROR
@@ -767,10 +809,11 @@ def _run_evaluate_rnd(inst, res):
                 continue
             for got, k in list(zip(o, oidx))+list(zip(c, cidx)):
                 res['obligations'] += 1
-                if _val_ok(got, want(k)):
+                if _val_ok(got, want(k), cond):
                     res['discharged'] += 1
                 else:
-                    problems.append(f'design {xs[a]} (evaluation {a}), metric M{k+1} ({roles[k]}, present={present[k]}, evaluator: {beh(a, k)}): {got}, expected {want(k)}')
+                    problems.append(f'design {xs[a]} (evaluation {a}), metric M{k+1} ({roles[k]}, present={present[k]}, evaluator: {beh(a, k)}): '
+                                    f'{got}, expected {want(k)} (when {p_.pc})')
     if problems:
         _viol(res, 'evaluate_rnd', dict(kind='evaluate_rnd', template=name), dict(template=name), dict(designs=xs), problems[:4],
               'documented evaluate contract for every valid design')
@@ -833,8 +876,8 @@ def _replay_multi_bad(nat, want_status, roles, inp):
         return True
     if nat[0] == 'error':
         return False
-    if [o[0] for o in nat[1]] != [i for i, r in enumerate(roles) if r == 'obj'] or \
-            [c[0] for c in nat[2]] != [i for i, r in enumerate(roles) if r == 'con']:
+    if sorted(o[0] for o in nat[1]) != [i for i, r in enumerate(roles) if r == 'obj'] or \
+            sorted(c[0] for c in nat[2]) != [i for i, r in enumerate(roles) if r == 'con']:
         return True
     for i, sign in nat[1]:
         if sign != (-1 if num(inp['dirs'][i]) <= 0 else 1):
